@@ -67,9 +67,14 @@ func genMachine(r *rng, failDen int) Step {
 		if failDen > 0 && r.chance(1, 2) {
 			k := r.intn(nFailKinds)
 			a.Steps = append(a.Steps, Step{Op: "failif", Pred: hashPred(r, failDen), Kind: k, Site: i % len(sites)})
-			if kindNonFatal(k) && nd > 0 && r.chance(1, 2) {
-				// non-fatal failure followed by a skip of the same action
-				a.Steps = append(a.Steps, Step{Op: "skipif", Pred: hashPred(r, 2)})
+			if kindNonFatal(k) && r.chance(2, 3) {
+				// non-fatal failure followed by the same action becoming non-applicable: by Skip, or by a
+				// generator rejecting its data (which never passes through (*T).Skip)
+				if r.chance(1, 2) {
+					a.Steps = append(a.Steps, Step{Op: "skipif", Pred: hashPred(r, 2)})
+				} else {
+					a.Steps = append(a.Steps, Step{Op: "invalidif", Pred: hashPred(r, 2)})
+				}
 			}
 		}
 		if nd > 0 {
